@@ -14,6 +14,8 @@
 (*   RuleChk(row, f, o, x) for the immediates whose encoding is defined by a decoder (bitmask, fp8)          *)
 (*   Matches(row, o, w)   literals equal and every field equal to its rule's value                           *)
 (*   Refused(row, o)      some field has NoVal                                                               *)
+(*   AcceptedDenotesRow   an accepted instruction must have a database row whose operand pattern is the one   *)
+(*                        passed (LegVerdict: rs = {} => "accepted-non-form") and whose template it matches   *)
 EXTENDS A64Imm, Json, IOUtils
 
 NoVal  == 0 - 1
@@ -98,6 +100,15 @@ AddSub(imm, mod) ==
   ELSE IF mod.amt = 0 THEN <<0, imm.v>> ELSE IF mod.amt = 12 THEN <<1, imm.v>> ELSE none
 
 -----------------------------------------------------------------------------
+(* PC-relative operands.  The operand that was passed denotes a TARGET; the field holds target - PC (ADRP: page(target) - page(PC)).  *)
+(* The target is either given as a displacement (immediate form, A.v / A.off) or as a LABEL bound at section offset lpos, plus the      *)
+(* offset of a label-based memory operand (moff): target = label position + offset.  The instruction sits at section offset pc; the     *)
+(* section base is page aligned.  This holds whether the label is bound before (backward reference) or after (fixup) the instruction. *)
+IsLab(A)    == "lab" \in DOMAIN A /\ A.lab = 1
+RelDisp(A)  == IF IsLab(A) THEN A.lpos - A.pc ELSE A.v
+MemDisp(A)  == IF IsLab(A) THEN A.lpos + A.moff - A.pc ELSE A.off
+PageDisp(A) == IF IsLab(A) THEN (A.lpos \div 4096) - (A.pc \div 4096) ELSE IF A.v % 4096 = 0 THEN A.v \div 4096 ELSE 0 - 16777216
+
 RuleVal(row, f, o) ==
   LET A == o[f.a]
       B == o[f.b]
@@ -130,8 +141,8 @@ RuleVal(row, f, o) ==
     [] r = "mem_wback" -> IF A.mode = "o" THEN 0 ELSE 1
     [] r = "mem_mode" -> LET bit == CASE A.mode = "o" -> 1 [] A.mode = "post" -> 2 [] A.mode = "pre" -> 4
                          IN IF (f.p \div bit) % 2 = 1 THEN 0 ELSE NoVal
-    [] r = "off_s" -> IF A.xi >= 0 THEN NoVal ELSE IF A.off % f.p = 0 /\ InS(A.off \div f.p, f.q) THEN SInt(A.off \div f.p, f.q) ELSE NoVal
-    [] r = "off_u" -> IF A.xi >= 0 THEN NoVal ELSE IF A.off % f.p = 0 /\ InU(A.off \div f.p, f.q) THEN A.off \div f.p ELSE NoVal
+    [] r = "off_s" -> LET d == MemDisp(A) IN IF A.xi >= 0 THEN NoVal ELSE IF d % f.p = 0 /\ InS(d \div f.p, f.q) THEN SInt(d \div f.p, f.q) ELSE NoVal
+    [] r = "off_u" -> LET d == MemDisp(A) IN IF A.xi >= 0 THEN NoVal ELSE IF d % f.p = 0 /\ InU(d \div f.p, f.q) THEN d \div f.p ELSE NoVal
     [] r = "off_fixed" -> IF A.xi < 0 /\ A.off = f.p THEN 0 ELSE NoVal
     [] r = "off_fixed_shl" -> IF A.xi < 0 /\ A.off = f.p * Pow2(MinESize(o)) THEN 0 ELSE NoVal
     [] r = "idx_option" ->
@@ -141,8 +152,8 @@ RuleVal(row, f, o) ==
     [] r = "idx_plain" -> IF A.xi >= 0 /\ A.xi < 31 /\ A.xt = "x" /\ A.amt < 0 /\ A.sh = "" THEN 0 ELSE NoVal
     [] r = "cond" -> IF A.c >= 0 /\ A.c <= 15 THEN A.c ELSE NoVal
     [] r = "cond_inv" -> IF A.c >= 0 /\ A.c <= 13 THEN (IF A.c % 2 = 0 THEN A.c + 1 ELSE A.c - 1) ELSE NoVal
-    [] r = "rel" -> IF A.v % f.p = 0 /\ InS(A.v \div f.p, f.q) THEN SInt(A.v \div f.p, f.q) ELSE NoVal
-    [] r = "rel_page" -> IF A.v % 4096 = 0 /\ InS(A.v \div 4096, f.q) THEN SInt(A.v \div 4096, f.q) ELSE NoVal
+    [] r = "rel" -> LET d == RelDisp(A) IN IF d % f.p = 0 /\ InS(d \div f.p, f.q) THEN SInt(d \div f.p, f.q) ELSE NoVal
+    [] r = "rel_page" -> LET d == PageDisp(A) IN IF InS(d, f.q) THEN SInt(d, f.q) ELSE NoVal
     [] r = "imm_u" -> IF Small(A) /\ InU(A.v, f.p) THEN A.v ELSE NoVal
     [] r = "imm_u_opt" -> IF Absent(A) THEN f.q ELSE IF Small(A) /\ InU(A.v, f.p) THEN A.v ELSE NoVal
     [] r = "imm_s" -> IF Small(A) /\ InS(A.v, f.p) THEN SInt(A.v, f.p) ELSE NoVal
@@ -197,6 +208,7 @@ Matches(row, o, w) == MatchClause(row, o, w) = ""
 (* rs = the database rows with this mnemonic whose operand signature the operands fit (primary row first).        *)
 LegVerdict(Rows, rs, o, ok, ws) ==
   IF ~ok THEN <<"", "">>                                                       \* a refusal is not judged by C02
+  ELSE IF Len(rs) = 0 THEN <<"accepted-non-form", "">>                         \* AcceptedDenotesRow: no database row has this operand pattern
   ELSE LET enc == {j \in 1..Len(rs) : ~Refused(Rows[rs[j]], o)}
        IN IF enc = {} THEN <<"accepts-unencodable", FirstRefusing(Rows[rs[1]], o).n>>
           ELSE IF Len(ws) # 1 THEN <<"length", "">>
